@@ -191,6 +191,10 @@ func (f *Frame) checkReturn(e Exit) {
 				f.execSet(h, e.Cond, e.St, henv)
 				continue
 			}
+			if h.Kind == "bind" {
+				f.spec[h.Bind] = henv.pinContent(henv.eval(h.E))
+				continue
+			}
 			t := henv.evalBool(h.E)
 			switch h.Kind {
 			case "use":
